@@ -8,6 +8,14 @@ pub struct Leaf(pub u16);
 #[derive(Clone, Debug, Default)]
 pub struct Pair<A, B>(pub A, pub B);
 
+/// Const arguments ahead of a type argument.
+#[derive(Clone, Debug)]
+pub struct Grid<const W: usize, const H: usize, T>(pub [[Option<T>; W]; H]);
+
+/// A lifetime argument ahead of a type argument.
+#[derive(Clone, Debug)]
+pub struct Borrowed<'a, T>(pub &'a str, pub T);
+
 pub mod shadow {
     //! User types that share their names with std types the printer rewrites.
     #[derive(Clone, Debug, Default)]
